@@ -1,4 +1,6 @@
 """C06 — server-initiated acknowledgements (K4)."""
+import json
+
 from .. import common as C
 from .. import server_sim as S
 from .. import server_gen as SG
@@ -323,6 +325,9 @@ def run(ctx):
     C.proof_step(ctx, ['call(): the wait primitive (eio.create_event().wait) is scripted: the nested inputs run while the caller waits'])
     C.audit_extra(ctx, 'GlueServer', ['call_timeouts'])
     S.run_cases(ctx, PROFILE, ctx.scale(150, 3000), 70, oracle=oracle, nontrivial=nontrivial, gen_hook=hook)
+    # duplicate ACKs delivered while the first invocation of the callback is still running (oracle only)
+    from . import c06_overlap
+    c06_overlap.run(ctx)
     ctx.coverage['rule'] = ('emits with callbacks / call() to individual clients on several namespaces interleaved with ACK and '
                             'BINARY_ACK packets from any client with correct, duplicate, never-issued, other-client, '
                             'other-namespace and 0 ids, disconnects and reconnects in between; application callbacks with '
@@ -335,4 +340,11 @@ def run(ctx):
 
 
 def replay(ctx, r):
+    oc = r.get('replay', {}).get('overlap') or r.get('overlap')
+    if oc:
+        from . import c06_overlap
+        bad = c06_overlap.run_case(oc)
+        print('overlapping-delivery case:', json.dumps(oc))
+        print('oracle:', 'violations: %s' % bad if bad else 'holds')
+        return 1 if bad else 0
     return S.replay_case(ctx, r, oracle=oracle)
